@@ -41,8 +41,21 @@ def clear_caches(db):
     clear = getattr(db, "_ClearCaches", None)
     if clear is not None:
         clear()
-    db.quantities_cache.clear()
-    db._category_unit_valid.clear()
+    known = 0
+    for name in ("quantities_cache", "_category_unit_valid"):
+        d = getattr(db, name, None)
+        if d is not None:
+            d.clear()
+            known += 1
+    if clear is None and known < 2:
+        # the private names are gone: invalidate through the public API - re-registering a category with
+        # exactly its own data is a registration (caches are dropped) that leaves the registry equal
+        for c in list(db.IterCategories())[:1]:
+            i = db.GetCategoryInfo(c)
+            db.AddCategory(
+                c, i.quantity_type, valid_units=None if i.valid_units is None else list(i.valid_units), override=True, default_unit=i.default_unit,
+                default_value=i.default_value, min_value=i.min_value, max_value=i.max_value, is_min_exclusive=i.is_min_exclusive, is_max_exclusive=i.is_max_exclusive, caption=i.caption,
+            )
     Quantity._EMPTY_QUANTITY = None
 
 
